@@ -188,8 +188,7 @@ GV_CANARY("AdjCholDec_solve entry");
 /* ghost: the position array has the shape of perm */
 free(gv_pos.p);
 gv_pos.dim = self->N;
-gv_pos.p = malloc((size_t)self->N * sizeof(Index));
-__CPROVER_assume(gv_pos.p != NULL);
+gv_pos.p = GV_NEW(Index, self->N);   /* ghost array; 'malloc does not fail' is the global assumption of gv.h */
 //@ tail AdjCholDec_solve 1
 gv_pos.p[i - 1] = i;   /* ghost: unknown i sits at position i */
 //@ at AdjCholDec_solve swap1
